@@ -315,4 +315,225 @@ theorem model_variable_usages_eq_spec {S : Schema} {D : Document} (h : WellScope
   · simp only [a, VarAcc.encountered_append, d2', f2, g2, bodyUsages, List.map_append]
   · simp only [a, VarAcc.spreads_append, d3, f3, g3, List.nil_append]
 
+/-! ## Assembly: soundness and completeness for the proved groups -/
+
+/-- The model passes whose agreement with the specification is proved, all clean. -/
+structure ProvedPassesClean (S : Schema) (D : Document) : Prop where
+  operations : operationLoopErrors S [] D ++ loneAnonymousErrors D = []
+  declarations : Model.validateFragmentDeclarations S D = []
+  fields : primaryFree (Model.validateFields1 S D) = true
+  arguments : primaryFree (Model.validateArguments S D) = true
+  spreads : primaryFree (Model.spreadChecks S D) = true
+  values : primaryFree (Model.validateValues S D) = true
+  directives : Model.validateDirectives S D = []
+  variableDefs : ∀ d ∈ D, variableDefErrors S [] (Model.varDefsOf d) = []
+
+/-- The rules of the specification that belong to those passes. -/
+structure ProvedRulesHold (S : Schema) (D : Document) : Prop where
+  opNameUnique : Spec.opNameUnique D = true
+  loneAnonymous : Spec.loneAnonymous D = true
+  opTypeSupported : Spec.opTypeSupported S D = true
+  fragmentNamesUnique : Spec.fragmentNamesUnique D = true
+  fragmentTypesExist : Spec.fragmentTypesExist S D = true
+  fragmentsOnComposite : Spec.fragmentsOnComposite S D = true
+  fragmentsUsed : Spec.fragmentsUsed S D = true
+  fieldsDefined : Spec.fieldsDefined S D = true
+  leafSelections : Spec.leafSelections S D = true
+  argumentsKnown : Spec.argumentsKnown S D = true
+  argumentsUnique : Spec.argumentsUnique S D = true
+  argumentsRequired : Spec.argumentsRequired S D = true
+  spreadsDefined : Spec.spreadsDefined S D = true
+  spreadsPossible : Spec.spreadsPossible S D = true
+  valuesCorrect : Spec.valuesCorrect S D = true
+  directivesDefined : Spec.directivesDefined S D = true
+  directivesInLocation : Spec.directivesInLocation S D = true
+  directivesUnique : Spec.directivesUnique S D = true
+  variablesUnique : Spec.variablesUnique D = true
+  variablesAreInputTypes : Spec.variablesAreInputTypes S D = true
+
+theorem wellScoped_of_rules {S : Schema} {D : Document} (hwf : S.wf = true) (h : ProvedRulesHold S D) :
+    WellScoped S D :=
+  { wf := hwf, ops := h.opTypeSupported, typesExist := h.fragmentTypesExist, onComposite := h.fragmentsOnComposite,
+    fields := h.fieldsDefined, leaves := h.leafSelections }
+
+/-- **Completeness, proved groups**: if the 20 rules of the proved groups hold (in particular if
+    `Spec.valid S D`), none of the corresponding model passes reports a primary error — on fields,
+    arguments, directives, fragments and values at any depth. -/
+theorem validate_complete_partial {S : Schema} {D : Document} (hwf : S.wf = true) (h : ProvedRulesHold S D) :
+    ProvedPassesClean S D := by
+  have hws := wellScoped_of_rules hwf h
+  exact {
+    operations := (model_operations_eq_spec_partial S D).2 ⟨h.opNameUnique, h.loneAnonymous, h.opTypeSupported⟩
+    declarations := (model_fragment_declarations_eq_spec S D).2
+      ⟨h.fragmentNamesUnique, h.fragmentTypesExist, h.fragmentsOnComposite, h.fragmentsUsed⟩
+    fields := by rw [model_fields_eq_spec hws.toScopeRules, h.fieldsDefined, h.leafSelections]; rfl
+    arguments := by
+      rw [model_arguments_eq_spec hws, h.argumentsKnown, h.argumentsUnique, h.argumentsRequired]; rfl
+    spreads := by
+      rw [model_fragment_spreads_eq_spec hws h.fragmentNamesUnique, h.spreadsDefined, h.spreadsPossible]; rfl
+    values := by rw [model_values_eq_spec hws, h.valuesCorrect]
+    directives := (model_directives_eq_spec S D).2 ⟨h.directivesDefined, h.directivesInLocation, h.directivesUnique⟩
+    variableDefs := (model_variable_definitions_eq_spec S D).2 ⟨h.variablesUnique, h.variablesAreInputTypes⟩ }
+
+/-- **Soundness, proved groups**: if none of those model passes reports a primary error, the 20
+    rules hold. The order matters and is the code's: operations and declarations establish the
+    scopes, the first pass over the fields makes the document well-scoped, then arguments, spreads
+    and values mean what the specification says. -/
+theorem validate_sound_partial {S : Schema} {D : Document} (hwf : S.wf = true) (h : ProvedPassesClean S D) :
+    ProvedRulesHold S D := by
+  obtain ⟨o1, o2, o3⟩ := (model_operations_eq_spec_partial S D).1 h.operations
+  obtain ⟨f1, f2, f3, f4⟩ := (model_fragment_declarations_eq_spec S D).1 h.declarations
+  have hsr : ScopeRules S D := ⟨hwf, o3, f2, f3⟩
+  have hf := h.fields
+  rw [model_fields_eq_spec hsr, Bool.and_eq_true] at hf
+  have hws : WellScoped S D := { toScopeRules := hsr, fields := hf.1, leaves := hf.2 }
+  have ha := h.arguments
+  rw [model_arguments_eq_spec hws, Bool.and_eq_true, Bool.and_eq_true] at ha
+  have hs := h.spreads
+  rw [model_fragment_spreads_eq_spec hws f1, Bool.and_eq_true] at hs
+  have hv := h.values
+  rw [model_values_eq_spec hws] at hv
+  obtain ⟨d1, d2, d3⟩ := (model_directives_eq_spec S D).1 h.directives
+  obtain ⟨v1, v2⟩ := (model_variable_definitions_eq_spec S D).1 h.variableDefs
+  exact ⟨o1, o2, o3, f1, f2, f3, f4, hf.1, hf.2, ha.1.1, ha.1.2, ha.2, hs.1, hs.2, hv, d1, d2, d3, v1, v2⟩
+
+/-- `Spec.valid` gives the rules of the proved groups (it is the conjunction of all 26 rules). -/
+theorem provedRules_of_valid {S : Schema} {D : Document} (h : Spec.valid S D = true) : ProvedRulesHold S D := by
+  unfold Spec.valid Spec.rules at h
+  simp only [List.all_cons, List.all_nil, Bool.and_true, Bool.and_eq_true] at h
+  obtain ⟨a1, a2, a3, _, a5, a6, _, a8, a9, a10, a11, a12, a13, a14, a15, _, a17, a18, a19, a20, a21, a22, a23, _, _, _⟩ := h
+  exact ⟨a1, a2, a3, a11, a12, a13, a14, a5, a6, a8, a9, a10, a15, a17, a18, a19, a20, a21, a22, a23⟩
+
+/-- **No spurious secondary error, first field pass**: on a well-scoped document the first pass of
+    validateFields emits no secondary error ("no type info for field" never stands alone). -/
+theorem fields_no_secondary {S : Schema} {D : Document} (h : WellScoped S D) :
+    AllPrimary (Model.validateFields1 S D) := by
+  unfold Model.validateFields1
+  exact allPrimary_flatMap _ _ (fun d hd => fields1_set_allPrimary S _ _ (hasInfo_def h hd))
+
+/-- **No spurious secondary error, spread inspection**: on a well-scoped document
+    "no type info for fragment spread parent" is never emitted. -/
+theorem spreads_no_secondary {S : Schema} {D : Document} (h : WellScoped S D) :
+    AllPrimary (Model.spreadChecks S D) := by
+  unfold Model.spreadChecks
+  apply allPrimary_flatMap
+  intro d hd
+  obtain ⟨e, hocc⟩ := def_occs h hd
+  rw [spreads_set_flat, e]
+  exact allPrimary_flatMap _ _ (fun o ho => spreadOcc_allPrimary S D (hocc o ho).1)
+
+/-- **Completeness incl. secondary errors** for the first field pass and the spread inspection:
+    if §5.3.1, §5.3.3 (resp. §5.5.2.1, §5.5.2.3) hold on a well-scoped document these passes report
+    nothing at all. -/
+theorem fields_and_spreads_silent {S : Schema} {D : Document} (hwf : S.wf = true) (h : ProvedRulesHold S D) :
+    Model.validateFields1 S D = [] ∧ Model.spreadChecks S D = [] := by
+  have hws := wellScoped_of_rules hwf h
+  have hc := validate_complete_partial hwf h
+  exact ⟨nil_of_primaryFree_allPrimary hc.fields (fields_no_secondary hws),
+    nil_of_primaryFree_allPrimary hc.spreads (spreads_no_secondary hws)⟩
+
+set_option linter.defProp false
+
+/-! ## Non-vacuity: the hypotheses of the conditional theorems are satisfiable, and both verdicts
+    occur under them (witnesses: the inputs of the fixed defects). `decide` here evaluates concrete
+    instances only; the claims are the theorems above. -/
+
+/-- Query { f(a: Int): Int, o(x: Int): T, l(l: [In]): Int }  T { g(x: Int!): Int, s: String }
+    input In { a: Boolean }  @skip(if: Boolean!) on FIELD -/
+def exS : Schema :=
+  { types := [
+      { name := "Int", kind := .scalar .int }, { name := "String", kind := .scalar .string },
+      { name := "Boolean", kind := .scalar .boolean },
+      { name := "In", kind := .input [{ name := "a", type := .named "Boolean", dflt := .none }] },
+      { name := "T", kind := .object [
+          { name := "g", type := .named "Int", args := [{ name := "x", type := .nonNull (.named "Int"), dflt := .none }] },
+          { name := "s", type := .named "String", args := [] }] [] },
+      { name := "Query", kind := .object [
+          { name := "f", type := .named "Int", args := [{ name := "a", type := .named "Int", dflt := .none }] },
+          { name := "o", type := .named "T", args := [{ name := "x", type := .named "Int", dflt := .none }] },
+          { name := "l", type := .named "Int", args := [{ name := "l", type := .list (.named "In"), dflt := .none }] }] [] }],
+    query := "Query", mutation := none, subscription := none,
+    directives := [{ name := "skip", locs := ["FIELD"], args := [{ name := "if", type := .nonNull (.named "Boolean"), dflt := .none }] }],
+    metaFields := [] }
+
+def q (sels : List Selection) : Document := [.op none none [] [] (.mk sels ⟨1, 1⟩)]
+
+/-- `{ o { g } }`: the input of F-04b (required argument missing beneath a field with argument definitions). -/
+def exMissingArg : Document :=
+  q [.field none "o" ⟨1, 3⟩ [] [] (some (.mk [.field none "g" ⟨1, 7⟩ [] [] none] ⟨1, 5⟩))]
+
+/-- `{ o { s } }` -/
+def exFine : Document :=
+  q [.field none "o" ⟨1, 3⟩ [] [] (some (.mk [.field none "s" ⟨1, 7⟩ [] [] none] ⟨1, 5⟩))]
+
+/-- `{ o { s @skip(if: "x") } }` -/
+def exBadValue : Document :=
+  q [.field none "o" ⟨1, 3⟩ [] [] (some (.mk [.field none "s" ⟨1, 7⟩ []
+      [{ name := "skip", pos := ⟨1, 9⟩, args := [{ name := "if", pos := ⟨1, 15⟩, value := .str "x" ⟨1, 19⟩ }] }] none] ⟨1, 5⟩))]
+
+/-- `{ o { nope } }` -/
+def exUnknownField : Document :=
+  q [.field none "o" ⟨1, 3⟩ [] [] (some (.mk [.field none "nope" ⟨1, 7⟩ [] [] none] ⟨1, 5⟩))]
+
+/-- `query($v: Boolean) { l(l: {a: $v}) }`: the input of F-04d. -/
+def exListObjectVar : Document :=
+  [.op (some (.query, ⟨1, 1⟩)) none [{ name := "v", pos := ⟨1, 7⟩, npos := ⟨1, 8⟩, type := .named "Boolean" ⟨1, 11⟩, dflt := none }] []
+    (.mk [.field none "l" ⟨1, 22⟩ [{ name := "l", pos := ⟨1, 24⟩, value := .obj [.mk "a" ⟨1, 28⟩ (.var "v" ⟨1, 31⟩)] ⟨1, 27⟩ }] [] none] ⟨1, 20⟩)]
+
+def exS_wf : Schema.wf exS = true := by decide
+
+def scopeRules_ex (D : Document) (h1 : Spec.opTypeSupported exS D = true) (h2 : Spec.fragmentTypesExist exS D = true)
+    (h3 : Spec.fragmentsOnComposite exS D = true) : ScopeRules exS D := ⟨exS_wf, h1, h2, h3⟩
+
+/-- `ScopeRules` is satisfiable, and `model_fields_eq_spec` has both outcomes under it. -/
+example : ScopeRules exS exUnknownField := scopeRules_ex _ (by decide) (by decide) (by decide)
+example : (Spec.fieldsDefined exS exUnknownField && Spec.leafSelections exS exUnknownField) = false := by decide
+example : (Spec.fieldsDefined exS exFine && Spec.leafSelections exS exFine) = true := by decide
+
+/-- `WellScoped` is satisfiable; under it the arguments theorem has both outcomes (F-04b's input
+    is a well-scoped document with a missing required argument). -/
+example : WellScoped exS exMissingArg :=
+  { toScopeRules := scopeRules_ex _ (by decide) (by decide) (by decide), fields := by decide, leaves := by decide }
+example : (Spec.argumentsKnown exS exMissingArg && Spec.argumentsUnique exS exMissingArg &&
+    Spec.argumentsRequired exS exMissingArg) = false := by decide
+example : primaryFree (Model.validateArguments exS exMissingArg) = false := by decide
+example : primaryFree (Model.validateArguments exS exFine) = true := by decide
+
+/-- Values: both outcomes under `WellScoped`. -/
+example : WellScoped exS exBadValue :=
+  { toScopeRules := scopeRules_ex _ (by decide) (by decide) (by decide), fields := by decide, leaves := by decide }
+example : Spec.valuesCorrect exS exBadValue = false := by decide
+example : Spec.valuesCorrect exS exFine = true := by decide
+
+/-- Variable usages: F-04d's input is well-scoped, its usage has an expected type and is allowed. -/
+example : WellScoped exS exListObjectVar :=
+  { toScopeRules := scopeRules_ex _ (by decide) (by decide) (by decide), fields := by decide, leaves := by decide }
+example : Schema.wfDefaults exS = true := by decide
+example : Spec.variableUsagesAllowed exS exListObjectVar = true := by decide
+example : (exListObjectVar.flatMap (Spec.defUsages exS exListObjectVar)).map (·.expected) =
+    [some (.named "Boolean")] := by decide
+
+
+
+/-- **Fragment cycles group** (validate_fragments.go:65-102 = §5.5.2.2), all documents with unique
+    fragment names: the breadth-first search of the model terminates within its fuel for every
+    fragment and reports "fragment cycle detected" iff the specification's closure finds a fragment
+    that reaches itself. -/
+theorem model_fragment_cycles_eq_spec {D : Document} (hu : Spec.fragmentNamesUnique D = true) :
+    Model.fragmentCycleErrors D = ([], false) ↔ Spec.noFragmentCycles D = true := by
+  unfold Model.fragmentCycleErrors
+  rw [cycleLoop_spec D _ (by
+    intro n hn
+    have : n ∈ (Model.fragsOf D).map (·.name) := (mem_dedup _ n).1 (by simpa [Model.dedup, Spec.dedup] using hn)
+    exact fragLast_isSome_of_mem D n this), noFragmentCycles_iff]
+  have hmem : ∀ n, n ∈ Model.dedup ((Model.fragsOf D).map (·.name)) ↔ n ∈ Spec.fragNames D := by
+    intro n
+    rw [← fragsOf_names]
+    exact mem_dedup _ n
+  constructor
+  · intro h n hn hr
+    exact h n ((hmem n).2 hn) (hr.mono (fun a x hx => (directDeps_spec hu a x).2 hx))
+  · intro h n hn hr
+    exact h n ((hmem n).1 hn) (hr.mono (fun a x hx => (directDeps_spec hu a x).1 hx))
+
 end ApiFu.C04
